@@ -27,22 +27,22 @@ func (r Result) String() string { return [...]string{"unsat", "sat", "unknown"}[
 // Solver is one long-lived solver process fed through stdin (z3 -in, z3-new -in or
 // cvc5 --incremental). Declarations are global; assertions live in push/pop scopes.
 type Solver struct {
-	Kind    string // "z3", "z3-new", "cvc5"
-	cmd     *exec.Cmd
-	in      io.WriteCloser
-	out     *bufio.Reader
-	lines   chan string
-	defined map[*Term]bool
-	ctxGen  *Ctx
-	Timeout time.Duration
-	Stats   SolverStats
-	Log     io.Writer
-	dead    bool
-	level   int
+	Kind       string // "z3", "z3-new", "cvc5"
+	cmd        *exec.Cmd
+	in         io.WriteCloser
+	out        *bufio.Reader
+	lines      chan string
+	defined    map[*Term]bool
+	ctxGen     *Ctx
+	Timeout    time.Duration
+	Stats      SolverStats
+	Log        io.Writer
+	dead       bool
+	level      int
 	pendingPop bool
-	scopes  [][]*Term
-	Lost    bool // set after a restart: all scopes were lost
-	LastError string
+	scopes     [][]*Term
+	Lost       bool // set after a restart: all scopes were lost
+	LastError  string
 }
 
 type SolverStats struct {
@@ -307,6 +307,13 @@ func (s *Solver) Check(extra ...*Term) Result {
 		s.Stats.Unknown++
 	}
 	return res
+}
+
+// Retime restarts the process with a different per-query time limit (scopes are lost, Lost is
+// set). Used to give one undecided query a second, longer chance — e.g. on a loaded machine.
+func (s *Solver) Retime(d time.Duration) {
+	s.Timeout = d
+	s.restartLost()
 }
 
 // restartLost restarts the process after a hang; all scopes are gone. Lost is set so
